@@ -1312,8 +1312,8 @@ fn piecewise(rng: &mut Rng, vars: &[Var], inexact: bool, depth: usize) -> SExp {
     let leaf = |rng: &mut Rng| affine(rng, n, inexact, 2);
     match rng.below(if depth == 0 { 6 } else { 4 }) {
         0 => SExp::Abs(Box::new(leaf(rng))),
-        1 => SExp::Min((0..rng.usize(2, 3)).map(|_| leaf(rng)).collect()),
-        2 => SExp::Max((0..rng.usize(2, 3)).map(|_| leaf(rng)).collect()),
+        1 => SExp::Min((0..rng.usize(2, 4)).map(|_| leaf(rng)).collect()),
+        2 => SExp::Max((0..rng.usize(2, 4)).map(|_| leaf(rng)).collect()),
         3 => {
             // coefficient times a piecewise node plus an affine part
             let inner = piecewise(rng, vars, inexact, depth + 1);
